@@ -21,7 +21,8 @@ RULE = ("seeded residue definitions (chains, rings, branched, impropers with non
         "angle / improper targets with own geometry code; build-file [ template ] coordinates minus centroid and "
         "[ volumes ] values are used verbatim; sizes are positive and do not depend on which other residues are in the "
         "system. non-trivial = topology with >= 2 distinct residue classes or a virtual site; distinct = hash(topology, "
-        "build file)")
+        "build file)"
+        " Later: the generator's own failure report (per template) against the final template, frustrated impropers, virtual sites built from virtual sites, sites stacked on one atom, zero-extent site types, two templates under one residue name, [ volumes ] before [ template ].")
 ASSUMPTIONS = ["virtual_sitesn is generated with function 1/2 and equal masses (the centre-of-geometry construction is a "
                "documented approximation otherwise)", "user templates carry the same [ bonds ] as the residue",
                "impropers use reference angles within +-40 degrees (no periodic wrap in the tolerance test)"]
